@@ -304,6 +304,9 @@ def run(F, R, tier):
                 "the finished tick is 0 or the clock at the SetProvisionFinished(true) message, and both replies return that variable (%s)" % det,
                 "finished tick definitions / replies: %s" % det)
 
+    from lib import contracts as _c16
+    for nm in ("update_one_state", "reset_one_state", "set_provision_finished", "get_provision_finished", "get_state"):
+        _c16.reliable_round_trip(F, R, "C16.R1", PW + "ProvisionSharedState::" + nm, "ProvisionSharedState::" + nm)
     R.rule("C16.R6", "the provisioning deadline and the start of the status tasks do not wait for the host")
     bookkeeping_independent_of_poll(F, R, "C16.R6")
 
